@@ -364,6 +364,19 @@ fn gen_c10(c: &mut Choices) -> Case {
             self_closing: false,
         });
     }
+    // history pair: an assignment to a local named like the subject's sole identifier child, in
+    // another scope (harmless capture of the imported `y`), and a function body afterwards
+    let other_scope = !triple && g.c.chance(1, 6);
+    if other_scope {
+        g.label("distractor=same-name-assignment-in-other-scope-before-identifier-child");
+        pre.push(Item::Raw("function dzh() {\n  let y;\n  y = 1;\n  return y;\n}".into()));
+        node = Node::El(Element {
+            tag: Tag::Bound("C2".into()),
+            attrs: vec![],
+            children: vec![Child::Expr(Ex::src("y", Cat::IdentBound))],
+            self_closing: false,
+        });
+    }
     if triple {
         node = Node::El(Element {
             tag: Tag::Bound("C2".into()),
@@ -373,7 +386,7 @@ fn gen_c10(c: &mut Choices) -> Case {
         });
     }
     let subject = Item::Site {
-        tpl: if triple {
+        tpl: if triple || other_scope {
             // module level, so that the assignment and the subject share one traversal scope
             "export const e0 = @H@;".to_string()
         } else {
@@ -384,6 +397,9 @@ fn gen_c10(c: &mut Choices) -> Case {
     let mut post = vec![];
     for n in 0..n_post {
         post.push(distractor(&mut g, 10 + n));
+    }
+    if other_scope {
+        post.push(Item::Raw("export const thunkdzb = () => {\n  if (b1) {\n    return 1;\n  }\n  return 2;\n};".into()));
     }
     let vue_line = match vue_import {
         1 => {
@@ -562,6 +578,7 @@ impl Property for C10 {
             "distractor=module-level-temporary",
             "distractor=user-import-Fragment-alias",
             "distractor=assignment-then-call-child-before-same-name-child",
+            "distractor=same-name-assignment-in-other-scope-before-identifier-child",
         ]
     }
 }
